@@ -76,7 +76,7 @@ PROPS = {
         "text": "writer partition independence, reader schedule independence and pipeline round trip proved for every lawful cipher/codec; state machines tied by cipher-sm, end to end by roundtrip",
     },
     "C16": {
-        "lean": ["PnaVerif.Props.Consts", "PnaVerif.Props.C16"],
+        "lean": ["PnaVerif.Props.Consts", "PnaVerif.Props.C16", "PnaVerif.Props.C16Key"],
         "families": ["roundtrip", "foreign", "cli-crypt"],
         "cli": True,
         "trusted": COMMON_TRUST + CRYPTO_TRUST,
@@ -98,7 +98,7 @@ PROPS = {
         "text": "size limit, losslessness, termination/rejection proved for all archives and all maxima; split family: every max around the overhead on real archives, parts re-read",
     },
     "C10": {
-        "lean": ["PnaVerif.Props.Consts", "PnaVerif.Props.C10", "PnaVerif.Props.C10Mode", "PnaVerif.Props.C10Target", "PnaVerif.Props.C10Acl", "PnaVerif.Props.C10Bits", "PnaVerif.Props.C10AclIdem"],
+        "lean": ["PnaVerif.Props.Consts", "PnaVerif.Props.C10", "PnaVerif.Props.C10Mode", "PnaVerif.Props.C10Target", "PnaVerif.Props.C10Acl", "PnaVerif.Props.C10Bits", "PnaVerif.Props.C10AclIdem", "PnaVerif.Props.C10AclSet"],
         "families": ["edit", "fault", "cli-codec"],
         "cli": True,
         "trusted": COMMON_TRUST + ["globset (selection) and the system user database (chown) enter as oracle answers", "clap argument parsing"],
